@@ -4,6 +4,7 @@ Scheduling points are trace events inside files of the statham package:
   granularity "line":   every `line` event
   granularity "switch": `call` events and backward jumps only (where CPython 3.12's eval loop
                         can actually drop the GIL between two Python-level steps)
+  granularity ("calls", {names}): only at entry to the named functions (coarse; for long-running bodies)
 Exactly one thread runs at a time (per-thread semaphore baton).  Schedules are enumerated
 by iterative context bounding: the default continuation keeps the running thread, then the
 lowest unfinished id; deviating while the running thread is still enabled costs one preemption.
@@ -86,6 +87,13 @@ def run(bodies, schedule, granularity="line", expect=None):
 
         def glob(frame, event, arg):
             if event != "call" or PKG_MARK not in frame.f_code.co_filename:
+                return None
+            if isinstance(granularity, tuple):
+                # ("calls", {function names}): scheduling points only at entry to the named functions (coarse, cheap)
+                if frame.f_code.co_name in granularity[1]:
+                    nxt = point(me, True)
+                    if nxt != me:
+                        handover(me, nxt)
                 return None
             if granularity == "switch":
                 last[id(frame)] = frame.f_lineno
